@@ -115,13 +115,14 @@ def real_events(sim):
 
 def _mk(scn, plan, cfg=None):
     s = {k: scn[k] for k in ('property', 'run_seed', 'source', 'text', 'ast', 'script', 'meta')}
+    s['sample_seed'] = scn.get('sample_seed', 0)
     s['configs'] = [cfg] if cfg is not None else scn['configs']
     s['plan'] = plan
     s['enumerate'] = False
     return s
 
 
-def compare(scn, plan, res, cos, ref):
+def compare(scn, plan, res, cos, ref, prop='C01', monitor=False):
     """Run the real machine at each configuration and compare with `ref`."""
     revents = merge_text(ref.dev.events)
     rout = ref.outcome
@@ -130,7 +131,7 @@ def compare(scn, plan, res, cos, ref):
         co = cos[tuple(cfg)]
         mi = ModInfo.get(co.bytes)
         sim = Sim(mi, scn['script'], plan, budget=CAP, record_io=True)
-        mon = Monitor(sim, types=False, depth=False)
+        mon = Monitor(sim, types=False, depth=monitor)
         out = sim.run()
         res.evals += 1
         res.ticks += out['ticks']
@@ -144,28 +145,44 @@ def compare(scn, plan, res, cos, ref):
             # without -g nothing can be resumed (C08's documented exemption)
             res.count('skipped_resume_without_debug_info')
             continue
+        if monitor:
+            for e in mon.events:
+                if e['armed']:
+                    res.states.add((e['code'], e['mode'], min(e['excess'] or 0, 5),
+                                    min(e['frames'], 4), mi.instrs.get(e['pc'], ('?',))[0]))
+                    if e['excess']:
+                        res.count('probe_fault_with_pending_operands')
+                    if e['frames'] > 1:
+                        res.count('probe_fault_inside_callee')
+            if mon.dispatches >= 2:
+                res.count('probe_second_fault_after_resume')
+            for cls, d in mon.problems:
+                name = 'stack-residue' if cls == 'C03:stack-depth' else cls.split(':', 1)[1]
+                res.violation(f'{prop}:{name}', dict(d, config=cfg, plan=plan), _mk(scn, plan, cfg),
+                              sig=dict(mon.sig()))
+                return False
         ev = real_events(sim)
         d = first_diff(revents, ev)
         if out['exc'] is not None:
-            res.violation('C01:outcome', {'what': 'host exception', 'exc': out['exc'],
+            res.violation(f'{prop}:outcome', {'what': 'host exception', 'exc': out['exc'],
                                           'config': cfg, 'plan': plan}, _mk(scn, plan, cfg),
                           sig={'exc': out['exc']['type']})
             return False
         if d is not None:
-            res.violation('C01:history', {'config': cfg, 'index': d[0], 'reference': d[1],
+            res.violation(f'{prop}:history', {'config': cfg, 'index': d[0], 'reference': d[1],
                                           'machine': d[2], 'plan': plan,
                                           'machine_outcome': out, 'reference_outcome': rout},
                           _mk(scn, plan, cfg), sig={'kind': _kind(d[1], d[2])})
             return False
         if (out['halt'], out['trap']) != (rout['halt'], rout['trap']):
-            res.violation('C01:outcome', {'config': cfg, 'reference': rout, 'machine': out,
+            res.violation(f'{prop}:outcome', {'config': cfg, 'reference': rout, 'machine': out,
                                           'plan': plan}, _mk(scn, plan, cfg),
                           sig={'ref': rout['trap'], 'got': out['trap']})
             return False
         if cfg[1] and rout['trap'] not in (None, 'KEYBOARD_INTERRUPT') and rout['stmt'] is not None:
             want = pos.get(str(rout['stmt']))
             if want is not None and out['line'] != want[0]:
-                res.violation('C01:outcome', {'what': 'error raised by another statement',
+                res.violation(f'{prop}:outcome', {'what': 'error raised by another statement',
                                               'config': cfg, 'reference_line': want[0],
                                               'machine_line': out['line'], 'trap': out['trap'],
                                               'plan': plan}, _mk(scn, plan, cfg),
